@@ -229,3 +229,214 @@ def run_script(case):
         rig.close()
         if rig.alive():
             obs['worker_alive_after_close'] = True
+
+
+# ---------------------------------------------------------------- scenario e: the END of a session with LEFTOVERS in the receive buffer
+"""Scenario e ("whenever the worker stops for any reason the session is marked disconnected and pending requests are failed").
+History: 1-3 requests are outstanding (asynchronous ones, and synchronous ones in threads of their own); the server answers some
+of them and then sends the BEGINNING of a frame and nothing more - 1.0: text without ]]>]]> (or with the first octets of the
+delimiter), 1.1: a chunk shorter than its header says / a complete chunk without end-of-chunks / the first octets of a header -
+whose last octets are what any read boundary may leave behind: the first octet(s) of a multi-octet character, a stray 0xff / a stray
+continuation octet, an overlong form (or, as controls, a complete character, ASCII, nothing at all).  Then the session ENDS:
+  close          the application calls session.close()
+  close_session  the application calls Manager.close_session() (synchronous: the <close-session> request can not be answered any
+                 more and times out; asynchronous: it returns at once) - the transport is closed in both cases
+  with_exit      the application leaves the Manager's with-block
+  eof            the peer shuts its side down
+  reset          the peer closes the socket with unread data (ECONNRESET where the platform reports one)
+either after the worker has taken the leftover octets in, or racing with them.
+Oracle (the property sentence, nothing of the implementation): a request whose complete valid reply preceded the leftover holds
+exactly that reply; EVERY other request is failed with an error object within the bound (event set, .error an Exception; a
+synchronous call raises) - never left waiting; nothing of the unfinished frame reaches a listener as a message; `connected` is False;
+the session thread has ended; a local close returns within the bound; a request made afterwards is refused / failed at once."""
+import socket as _socket
+
+E_TAILS = {'lead_of_2': b'\xc3', 'lead_of_3': b'\xe2', 'two_of_3': b'\xe2\x82', 'three_of_4': b'\xf0\x9f\x98', 'lead_of_4': b'\xf0',
+           'stray_ff': b'\xff', 'stray_cont': b'\x80', 'overlong': b'\xc0\x80', 'surrogate': b'\xed\xa0\x80',
+           'bad_then_ascii': b'\xff</data>', 'lead_then_ascii': b'\xc3(more',
+           'complete_char': 'café'.encode('utf-8'), 'ascii': b'plain', 'nothing': None}
+E_UNDECODABLE = [k for k, v in E_TAILS.items() if v is not None and k not in ('complete_char', 'ascii')]
+E_SHAPES = {10: ['no_delim', 'part_delim'], 11: ['short_chunk', 'chunk_no_end', 'second_chunk_short', 'part_header']}
+E_ENDS = ['close', 'close_session', 'close_session_async', 'with_exit', 'eof', 'reset']
+
+
+def make_end_script(rng, base, tail=None, end=None, profile=None):
+    n_rpc = rng.randint(1, 3)
+    order = list(range(n_rpc)); rng.shuffle(order)
+    k = rng.randint(0, n_rpc - 1)                       # replies delivered before the leftover: at least one request stays outstanding
+    if tail is None:
+        tail = rng.choice(E_UNDECODABLE) if rng.random() < 0.8 else rng.choice(['complete_char', 'ascii', 'nothing'])
+    return {'level': 'session', 'scenario': 'e', 'base': base, 'profile': profile or rng.choice(['default', 'default', 'junos', 'huawei', 'iosxe']),
+            'reqs': [rng.random() < 0.35 for _ in range(n_rpc)],       # True = synchronous call in its own thread
+            'answered': order[:k], 'tail': tail, 'shape': rng.choice(E_SHAPES[base]),
+            'about': rng.choice(['reply', 'reply', 'notification', 'bare']),          # what the unfinished frame begins like
+            'end': end or rng.choice(E_ENDS), 'settle': rng.random() < 0.75, 'cut_inside_leftover': rng.random() < 0.3}
+
+
+def _leftover(case, mid):
+    """the octets of the unfinished frame"""
+    base, tail = case['base'], E_TAILS[case['tail']]
+    if tail is None:
+        return b''
+    head = {'reply': '<rpc-reply xmlns="%s" message-id="%s"><data>Zürich ' % (F.NS, mid),
+            'notification': '<notification xmlns="%s"><eventTime>2026-01-01T00:00:00Z</eventTime><ev>n9</ev><t>' % NOTIF,
+            'bare': ''}[case['about']].encode('utf-8')
+    body = head + tail
+    sh = case['shape']
+    if base == 10:
+        return body + (b']]>]]' if sh == 'part_delim' else b'')
+    if sh == 'short_chunk':
+        return b'\n#%d\n' % (len(body) + 40) + body
+    if sh == 'chunk_no_end':
+        return b'\n#%d\n' % len(body) + body
+    if sh == 'second_chunk_short':
+        return (b'\n#%d\n' % len(head) + head if head else b'') + b'\n#%d\n' % (len(tail) + 7) + tail
+    return b'\n#%d\n' % len(body) + body + b'\n#1'                 # part_header
+
+
+def run_end_script(case, bound=3.0):
+    """-> (ok, what, sig, observation)"""
+    from ncclient.operations.rpc import RPC
+    from ncclient.xml_ import new_ele
+    from ncclient.manager import Manager
+    class Get(RPC):
+        def request(self):
+            return self._request(new_ele('get'))
+    base = case['base']
+    rig = HistRig(base, case['profile'])
+    obs = {}
+    try:
+        s = rig.s
+        rpcs, sync_res, threads = [], {}, []
+        for i, sync in enumerate(case['reqs']):
+            r = Get(s, rig.dh, async_mode=not sync, timeout=8)
+            rpcs.append(r)
+            if sync:
+                def call(i=i, r=r):
+                    try:
+                        r.request(); sync_res[i] = ['returned', r.reply._raw if r.reply is not None else None]
+                    except BaseException as e:
+                        sync_res[i] = ['raised', type(e).__name__]
+                t = threading.Thread(target=call, daemon=True); t.start(); threads.append(t)
+            else:
+                r.request()
+        reqs = rig.drain_requests(len(rpcs))
+        ids = F.MSGID.findall(reqs.decode('utf-8', 'replace'))
+        if sorted(ids) != sorted(r.id for r in rpcs):
+            return False, 'the peer did not receive the %d framed requests: %r' % (len(rpcs), reqs[:200]), 'requests_not_sent', {'requests': reqs.hex()}
+        texts = {i: F.reply(rpcs[i].id, '<data>%d é</data>' % i) for i in case['answered']}
+        outstanding = [i for i in range(len(rpcs)) if i not in texts]
+        stream = b''.join(F.frame(base, texts[i].encode('utf-8')) for i in case['answered'])
+        left = _leftover(case, rpcs[outstanding[0]].id)
+        cuts = [len(stream)] if stream and left else []
+        if case['cut_inside_leftover'] and len(left) > 2: cuts.append(len(stream) + len(left) - 1)
+        for seg in F.segment(stream + left, cuts):
+            if seg and not rig.send(seg, settle=case['settle']): break
+        if case['settle']:
+            rig.wait(lambda: all(rpcs[i].event.is_set() for i in texts), 3.0)
+            rig.quiesce()
+        # ---- the end of the session
+        end, end_res = case['end'], {}
+        t_end = time.time()
+        def local():
+            try:
+                if end == 'close':
+                    s.close()
+                elif end in ('close_session', 'close_session_async'):
+                    m = Manager(s, rig.dh, timeout=0.3); m.async_mode = end.endswith('async')
+                    m.close_session()
+                else:
+                    with Manager(s, rig.dh, timeout=0.3):
+                        pass
+                end_res['r'] = 'returned'
+            except BaseException as e:
+                end_res['r'] = 'raised:' + type(e).__name__
+        closer = None
+        if end == 'eof':
+            try: rig.b.shutdown(_socket.SHUT_WR)
+            except OSError: pass
+        elif end == 'reset':
+            try: rig.b.close()                  # unread requests of the client may still be queued: the platform may report a reset
+            except OSError: pass
+        else:
+            closer = threading.Thread(target=local, daemon=True); closer.start()
+            closer.join(bound + 1.0)
+        pend = [rpcs[i] for i in outstanding]
+        rig.wait(lambda: all(r.event.is_set() for r in pend) and not s.is_alive() and not s.connected, bound)
+        waited = time.time() - t_end
+        for t in threads: t.join(0.5)
+        # a request made after the end
+        late = Get(s, rig.dh, async_mode=True, timeout=2)
+        try:
+            late.request(); late_res = 'accepted'
+            if late.event.wait(1.0): late_res = 'failed:' + type(late.error).__name__ if late.error is not None else 'completed'
+        except Exception as e:
+            late_res = 'refused:' + type(e).__name__
+        obs = {'rpcs': [{'reply': (r.reply._raw if r.reply is not None else None), 'error': (type(r.error).__name__ if r.error is not None else None),
+                         'error_is_exception': isinstance(r.error, Exception), 'event_set': r.event.is_set(), 'sync': sync_res.get(i)} for i, r in enumerate(rpcs)],
+               'connected': s.connected, 'worker_alive': s.is_alive(), 'local_end': end_res.get('r') if closer is not None else None,
+               'local_end_returned': (not closer.is_alive()) if closer is not None else None,
+               'callbacks': [x for k, x in rig.events if k == 'cb'], 'errbacks': [x for k, x in rig.events if k == 'err'],
+               'late_request': late_res, 'waited_s': round(waited, 2), 'leftover': left.hex()}
+        tag = '%s after %s leftover (%s)' % (end, 'an undecodable' if case['tail'] in E_UNDECODABLE else ('a decodable' if left else 'no'), case['tail'])
+        sent = [texts[i] for i in case['answered']]
+        for cb in obs['callbacks']:
+            if cb not in sent:
+                return False, 'a listener received %r: not a message the server framed (%s)' % (cb[:80], tag), 'delivered_not_framed', obs
+        if case['settle'] and obs['callbacks'] != sent:
+            return False, 'callbacks %r differ from the messages framed before the unfinished frame (%s)' % (obs['callbacks'], tag), 'callbacks_differ', obs
+        for i, o in enumerate(obs['rpcs']):
+            if o['reply'] is not None and o['reply'] != texts.get(i):
+                return False, 'request %d holds %r which is not its reply (%s)' % (i, o['reply'][:80], tag), 'foreign_or_invented_reply', obs
+            if o['sync'] and o['sync'][0] == 'returned' and o['sync'][1] != texts.get(i):
+                return False, 'synchronous request %d returned %r (%s)' % (i, o['sync'][1], tag), 'foreign_or_invented_reply', obs
+            if i in texts:
+                if case['settle'] and o['reply'] is None:
+                    return False, 'request %d: its complete reply preceded the unfinished frame and was taken in before the end, but was not delivered (%s)' % (i, tag), 'reply_before_end_lost', obs
+                if o['reply'] is not None: continue
+            if not o['event_set'] or o['error'] is None:
+                return False, ('request %d is still waiting %.1f s after the session ended (event set: %r, error: %r, worker alive: %r): a pending request was '
+                               'never failed - %s') % (i, waited, o['event_set'], o['error'], obs['worker_alive'], tag), 'pending_not_failed_at_end', obs
+            if not o['error_is_exception']:
+                return False, 'request %d failed with %r which is not an error object (%s)' % (i, o['error'], tag), 'pending_not_failed_at_end', obs
+            if case['reqs'][i] and (not o['sync'] or o['sync'][0] != 'raised'):
+                return False, 'synchronous request %d: the call did not raise although the session ended (%r) - %s' % (i, o['sync'], tag), 'pending_not_failed_at_end', obs
+        if obs['connected']:
+            return False, 'the session still reports connected after %s' % tag, 'still_connected_after_end', obs
+        if obs['worker_alive']:
+            s.join(bound)
+            if s.is_alive():
+                return False, 'the session thread is alive %.0f s after %s' % (bound + waited, tag), 'worker_alive_after_end', obs
+        if closer is not None and not obs['local_end_returned']:
+            return False, 'the local close did not return within %.0f s (%s)' % (bound + 1, tag), 'close_does_not_return', obs
+        if not obs['errbacks']:
+            return False, 'requests were outstanding when the session ended and no error was broadcast to the listeners (%s)' % tag, 'no_error_broadcast_at_end', obs
+        if late_res in ('accepted', 'completed'):
+            return False, 'a request made after the session ended was %s (%s)' % (late_res, tag), 'request_after_end_waits', obs
+        return True, '', None, obs
+    finally:
+        rig.close()
+        if rig.alive():
+            obs['worker_alive_after_close'] = True
+
+
+def end_scripts(rng, quick=True, seed=0):
+    """quick: every undecodable leftover x both framings once, the way the session ends rotating (local ends twice as often as peer
+    ends), plus the controls; thorough: every leftover x framing x end"""
+    cases = []
+    if quick:
+        ends = ['close', 'close_session', 'eof', 'with_exit', 'close', 'close_session_async', 'reset', 'close']
+        j = seed
+        for tail in E_UNDECODABLE:
+            for base in (10, 11):
+                cases.append(make_end_script(rng, base, tail, ends[j % len(ends)])); j += 1
+        for tail in ('complete_char', 'ascii', 'nothing'):
+            cases.append(make_end_script(rng, 10 if (j % 2) else 11, tail, ends[j % len(ends)])); j += 1
+    else:
+        for tail in E_TAILS:
+            for base in (10, 11):
+                for end in E_ENDS:
+                    cases.append(make_end_script(rng, base, tail, end))
+        for _ in range(60):
+            cases.append(make_end_script(rng, rng.choice([10, 11])))
+    return cases
